@@ -159,3 +159,51 @@ func VH_C18_FreeEmptyStream() {
 	}
 	vhReach("freed") // vh:require freed
 }
+
+// H18.tables: allocSectorTables from a table state on either side of the
+// header's 109 MSAT slots (scaled sectors: 4 allocation-table entries, 3 MSAT
+// entries per sector). Afterwards every allocation-table sector is listed in
+// the MSAT, every MSAT entry has a slot in the header or in an MSAT sector
+// (otherwise writeMSAT silently drops it and the tail of the table becomes
+// unreachable), and the sectors taken for the tables are marked as such and
+// distinct. Table contents are concrete (all in use but a symbolic number of
+// free entries at the end); the counts are symbolic.
+func VH_C18_AllocSectorTables() {
+	vhMaxLen(1024)
+	vhLoopBound(1200)
+	const satPer, msatPer = vhSector / 4, vhSector/4 - 1
+	satSectors := vhConcretize(vhInt("allocation-table-sectors", 107, 114), 120)
+	listed := satSectors - vhConcretize(vhInt("table-sectors-not-yet-listed", 0, 2), 3)
+	msatSectors := vhConcretize(vhInt("msat-sectors-present", 0, 2), 3)
+	free := vhConcretize(vhInt("free-entries-at-the-end", 0, 3), 4)
+	vhAssume(msatInHeader+msatSectors*msatPer >= listed) // the state before was consistent
+	r := &ComDoc{Header: new(Header), SectorSize: vhSector, ShortSectorSize: 4, FirstSector: 512, sectorBuf: make([]byte, vhSector)}
+	r.SAT = make([]SecID, satSectors*satPer)
+	for i := range r.SAT {
+		r.SAT[i] = SecIDEndOfChain
+	}
+	for i := 0; i < free; i++ {
+		r.SAT[len(r.SAT)-1-i] = SecIDFree
+	}
+	for i := 0; i < listed; i++ {
+		r.MSAT = append(r.MSAT, SecID(i))
+	}
+	for i := 0; i < msatSectors; i++ {
+		r.msatList = append(r.msatList, SecID(200+i))
+	}
+	preMSAT, preList := len(r.MSAT), len(r.msatList)
+	r.allocSectorTables()
+	vhReach("allocated") // vh:require allocated
+	vhAssert(len(r.SAT)%satPer == 0 && len(r.SAT)/satPer <= len(r.MSAT), "every-table-sector-listed-in-the-msat")
+	vhAssert(msatInHeader+len(r.msatList)*msatPer >= len(r.MSAT), "every-msat-entry-has-a-slot")
+	vhAssert(len(r.MSAT) >= preMSAT && len(r.msatList) >= preList, "tables-only-grow")
+	seen := map[SecID]bool{}
+	for _, s := range r.MSAT[preMSAT:] {
+		vhAssert(s >= 0 && int(s) < len(r.SAT) && r.SAT[s] == SecIDSAT && !seen[s], "new-table-sector-marked-and-distinct")
+		seen[s] = true
+	}
+	for _, s := range r.msatList[preList:] {
+		vhAssert(s >= 0 && int(s) < len(r.SAT) && r.SAT[s] == SecIDMSAT && !seen[s], "new-msat-sector-marked-and-distinct")
+		seen[s] = true
+	}
+}
